@@ -46,6 +46,7 @@ Recommended but optional to implement for a concrete detector:
 __author__ = ["Tveten"]
 __all__ = ["BaseDetector"]
 
+import numpy as np
 import pandas as pd
 from sktime.base import BaseEstimator
 from sktime.utils.validation.series import check_series
@@ -355,6 +356,11 @@ class BaseDetector(BaseEstimator):
         if y is not None:
             y = check_series(y, allow_index_names=True)
 
+        # `combine_first` is only available for pandas objects.
+        if isinstance(X, np.ndarray):
+            X = pd.DataFrame(X)
+        if isinstance(self._X, np.ndarray):
+            self._X = pd.DataFrame(self._X)
         self._X = X.combine_first(self._X)
 
         if y is not None:
